@@ -343,6 +343,43 @@ func run(rawIn json.RawMessage) (common.Case, error) {
 			c.Sig = "roundtrip-differs"
 		}
 		return c, nil
+	case "reencode":
+		// the cache write path of fetchPostings: snappyStreamedEncode over ready diff-varint bytes,
+		// read back through decodePostings
+		if rawErr != nil {
+			return encodeFailed(c, in.L, ok, rawErr, nil, nil), nil
+		}
+		enc, err := store.VerifC12SnappyStreamedEncode(len(in.L), raw)
+		if err != nil {
+			return c, fmt.Errorf("snappyStreamedEncode: %w", err)
+		}
+		chunks, err := dataChunks(enc, hdrS)
+		if err != nil {
+			return c, err
+		}
+		var lens []int
+		var cat []byte
+		for _, ch := range chunks {
+			lens = append(lens, len(ch))
+			cat = append(cat, ch...)
+		}
+		if !bytes.Equal(cat, raw) {
+			return c, fmt.Errorf("streamed chunks do not concatenate to the diff-varint bytes")
+		}
+		p, cl, err := store.VerifC12DecodePostings(enc)
+		if err != nil {
+			return c, fmt.Errorf("decode: %w", err)
+		}
+		d, de := readAll(p)
+		cl()
+		c.Coq = common.App("CSplit", nlist(in.L), intsN(lens), outCoq(d, de))
+		c.Obs = map[string]any{"raw_len": len(raw), "chunks": lens, "decoded_len": len(d), "err": de}
+		c.Nontrivial = len(in.L) >= 2
+		if !eqU(d, in.L) || de {
+			c.GoPred = "snappyStreamedEncode + decodePostings does not give back the original list"
+			c.Sig = "reencode-differs"
+		}
+		return c, nil
 	case "split":
 		if rawErr != nil {
 			return encodeFailed(c, in.L, ok, rawErr, nil, nil), nil
@@ -615,7 +652,7 @@ func gen(r *rand.Rand, tier string, n int) []any {
 	var out []any
 	maxLen := 60
 	if tier == "thorough" {
-		maxLen = 400
+		maxLen = 200
 	}
 	for i := 0; i < n; i++ {
 		switch k := r.Intn(10); {
@@ -626,9 +663,11 @@ func gen(r *rand.Rand, tier string, n int) []any {
 				l[a], l[b] = l[b], l[a]
 			}
 			out = append(out, input{Kind: "round", L: l})
-		case k < 6:
+		case k < 5:
 			l := genList(r, maxLen)
 			out = append(out, input{Kind: "split", L: l, Pieces: genPieces(r, rawLen(l))})
+		case k < 6:
+			out = append(out, input{Kind: "reencode", L: genList(r, 4*maxLen)})
 		default:
 			l := genList(r, maxLen)
 			in := input{Kind: "seek", L: l, Prog: genProg(r, l, 1+r.Intn(2*len(l)+4))}
@@ -687,6 +726,6 @@ func gen(r *rand.Rand, tier string, n int) []any {
 }
 
 func main() {
-	common.Main(common.Prop{ID: "C12", Facts: facts, Gen: gen, Run: run, QuickN: 500, ThoroughN: 8000,
+	common.Main(common.Prop{ID: "C12", Facts: facts, Gen: gen, Run: run, QuickN: 500, ThoroughN: 3000,
 		Preamble: "Open Scope N_scope.\n"})
 }
